@@ -30,9 +30,13 @@ Definition dual_targets_ok (c : cls) : bool :=
    subset (c_targets c) ["image"; "mask"; "masks"; "bboxes"; "keypoints"; "dicom"]).
 
 (* ---- C09: entropy only from Python's random (or generators seeded from it) ---- *)
+(* "process_state": the function writes module-level state (a global, a module-level dict / list, an lru_cache), the
+   only way a result can depend on earlier calls in the process.  The one writer is the metaclass that registers a
+   class for serialization when the class is DEFINED (import time, never on a result path) *)
 Definition entropy_row_ok (row : string * string * list string) : bool :=
   let '(_, fn, srcs) := row in
-  subset srcs ["py_random"; "seeded_state"; "identity"].
+  subset srcs ["py_random"; "seeded_state"; "identity"] ||
+  (String.eqb fn "SerializableMeta.__new__" && subset srcs ["process_state"]).
 (* id() is only used as the replay key (get_dict_with_id / __call__): never on a result path *)
 Definition identity_row_ok (row : string * string * list string) : bool :=
   let '(_, fn, srcs) := row in
